@@ -45,4 +45,4 @@ def fact_edge(lab, polarity, pred):
     """Edge label is a branch fact of the given polarity whose atom
     satisfies pred(atom, func)."""
     return (isinstance(lab, tuple) and lab[0] == polarity and
-            len(lab) == 3 and pred(lab[1], lab[2]))
+            len(lab) == 4 and pred(lab[1], lab[2], lab[3]))
